@@ -193,4 +193,18 @@ example : getcycle [(0, [2]), (1, [0]), (2, [1])] [0] = some [0, 2, 1, 0] := by 
 example : getcycle [(0, [1, 2]), (1, [0, 3]), (2, [0, 1]), (3, [0, 1, 2])] [3] = some [3, 1, 3] := by decide
 example : isdag [(0, [1, 2]), (1, [0, 3]), (2, [0, 1]), (3, [0, 1, 2])] [3] = some false := by decide
 
+/-- hypotheses of `toposort_total`: the chain `1 → 0` is closed, has unique keys and its start key is present -/
+example : Closed [(0, []), (1, [0])] ∧ (([(0, []), (1, [0])] : Graph).map Prod.fst).Nodup ∧
+    ∀ k ∈ [1], (deps? [(0, []), (1, [0])] k).isSome := by
+  refine ⟨?_, by decide, by decide⟩
+  intro a b ⟨ds, h1, h2⟩
+  simp only [deps?, List.lookup] at h1
+  split at h1
+  · cases h1; simp at h2
+  · split at h1
+    · cases h1
+      have : b = 0 := by simpa using h2
+      subst this; rfl
+    · cases h1
+
 end Dask.C07
